@@ -3,7 +3,7 @@ from functools import partial
 
 from . import engine
 from .rules import (tables, errflow, stop, scope, fold, hashorder, eqfield, cast, lock, witness, orpat, guard, parsepure,
-                    kernel, evalorder, layer, export, panic, misc, pairflowrule, variant, folddrop, queryguard, iterops, round3, forshape, typeprint, variance)
+                    kernel, evalorder, layer, export, panic, misc, pairflowrule, variant, folddrop, queryguard, iterops, round3, forshape, typeprint, variance, round4)
 
 TRUST = ["rustc: type checking, MIR construction, Instance resolution, auto traits",
          "pest / pest_meta: PEG semantics, silent/atomic rule semantics, PrattParser precedence climbing",
@@ -33,8 +33,8 @@ ITER_SCOPE = scope_prefix("instruction::reduce::", "<instruction::reduce::", "in
 STDLIB_SCOPE = scope_prefix("stdlib::", "<stdlib::", "variable::try_from::", "<variable::Variable as std::convert::From<std::io")
 
 prop("C01",
-     [guard.run, guard.run_mustcall, misc.run_fnexit, misc.run_looptype, misc.run_slicetype, misc.run_celltype, queryguard.run, fold.run, scope.run, round3.run_meetuse, round3.run_assigntyping, round3.run_cellmember],
-     "Also: Type::conjoin (a mere lower bound) is used only for parameter types (R-MEETUSE); `X=` is typed with the typing functions of X (R-ASSIGNTYPING). Decides the structural half of type soundness: all 43 static checks the soundness argument leans on exist, are tested "
+     [guard.run, guard.run_mustcall, misc.run_fnexit, misc.run_looptype, misc.run_slicetype, misc.run_celltype, queryguard.run, fold.run, scope.run, round3.run_meetuse, round3.run_assigntyping, round3.run_cellmember, lock.run_global],
+     "Also R-GLOBAL: no cache of parse results outlives the scope they were checked against. Also: Type::conjoin (a mere lower bound) is used only for parameter types (R-MEETUSE); `X=` is typed with the typing functions of X (R-ASSIGNTYPING). Decides the structural half of type soundness: all 43 static checks the soundness argument leans on exist, are tested "
      "before every success value of their creation function and cannot be bypassed (R-GUARD, R-MUSTCALL); falling off a function "
      "body yields () and MissingReturn stands in front of that for non-() functions (R-FNEXIT); the Type queries that compute "
      "result types treat all union members alike (R-FOLD); no operator runs a callee in the caller's scope (R-SCOPE). It does NOT "
@@ -69,8 +69,8 @@ prop("C03",
 
 prop("C04",
      [parsepure.run, kernel.run, guard.run_execerror, misc.run_retain, folddrop.run,
-      partial(panic.run, scope=FOLD_SCOPE, name="R-PANIC"), cast.run, round3.run_childkeep, round3.run_iterfold],
-     "Also: no collection of children is filtered while creating / folding (R-CHILDKEEP); folding never creates or pulls an iterator (R-ITERFOLD). Decides: folding cannot have effects, create cells or run user code (R-PARSEPURE: no path from parse / create / recreate to "
+      partial(panic.run, scope=FOLD_SCOPE, name="R-PANIC"), cast.run, round3.run_childkeep, round3.run_iterfold, layer.run, round4.run_declvalues],
+     "R-DECLVALUES. Also R-LAYER: the folder replaces run-time lookups by the declaration lexical scoping designates, so run-time scopes must follow it. Also: no collection of children is filtered while creating / folding (R-CHILDKEEP); folding never creates or pulls an iterator (R-ITERFOLD). Decides: folding cannot have effects, create cells or run user code (R-PARSEPURE: no path from parse / create / recreate to "
      "Exec::exec; cells built only by Mut::exec / of_type); the fold route and the run route of every operator end in the same "
      "kernel function (R-KERNEL, 62 rows); the early-error arms of the fold path raise only the variant the kernel raises "
      "(R-GUARD-X); only constant statements are dropped (R-RETAIN). Does NOT decide equality of results of twin programs.",
@@ -78,8 +78,8 @@ prop("C04",
      "kernel reuse is a sufficient mechanism, not a necessary one; And/Or folds are re-implementations (reviewed)")
 
 prop("C05",
-     [hashorder.run_hash, hashorder.run_order, hashorder.run_nondet, fold.run],
-     "Decides: no Hash impl of a crate type observes hash iteration order (R-HASH); every iteration over a HashMap / HashSet / "
+     [hashorder.run_hash, hashorder.run_order, hashorder.run_nondet, fold.run, lock.run_global, round4.run_instrstate],
+     "Also R-GLOBAL / R-INSTRSTATE: nothing is left behind by an earlier parse or run. Decides: no Hash impl of a crate type observes hash iteration order (R-HASH); every iteration over a HashMap / HashSet / "
      "MultiType ends in an order-insensitive consumer, a commutative fold, a display-only context or a reviewed row "
      "(R-HASHORDER, def-use from each iteration start to its terminal consumers); no clock / env / thread / RandomState call "
      "outside stdlib::{fs,io} (R-NONDET); union folds query all members alike (R-FOLD).",
@@ -87,8 +87,8 @@ prop("C05",
      "commutativity of Type::concat / conjoin is a reviewed reason, not proved")
 
 prop("C06",
-     [scope.run, layer.run],
-     "Decides: Function::exec (runs a body in the given scope) is called only from exec_with_args (fresh interpreter holding self + "
+     [scope.run, layer.run, round4.run_declvalues],
+     "R-DECLVALUES: a declaration of several names does not see the names it declares. Decides: Function::exec (runs a body in the given scope) is called only from exec_with_args (fresh interpreter holding self + "
      "params) and the host-call harness (R-SCOPE); each scoping construct creates its layer at check, fold and run time and runs "
      "its inside against the new layer; capture = recreate against the creating interpreter; modules are built from exactly the "
      "dropped layer; lower_layer is a shared reference and insert touches only the own map (R-LAYER, 26 obligations). Does NOT "
@@ -121,8 +121,8 @@ prop("C09",
      "forbidden-callee scan, panic inventory, cast guards", "")
 
 prop("C10",
-     [variance.run, round3.run_meetuse],
-     "Decides the direction clauses of the subtype relation on a provenance analysis of Type::matches, FunctionType::matches, "
+     [variance.run, round3.run_meetuse, round4.run_meetcell],
+     "R-MEETCELL: the meet never looks inside two cell types. Decides the direction clauses of the subtype relation on a provenance analysis of Type::matches, FunctionType::matches, "
      "StructType::matches and their closures (every value labelled with the operand - left S or right O -, field and variant "
      "payload it comes from; closures inherit the labels of what they capture and of the iterator they are handed to): arrays, "
      "tuples, struct fields, union members and function results are compared (part of S, part of O); function parameters (O, S); "
@@ -135,8 +135,8 @@ prop("C10",
      "a comparison written through a helper the labels cannot follow is reported as undecidable")
 
 prop("C11",
-     [iterops.run_src, iterops.run_loop, iterops.run_pick, forshape.run, partial(panic.run, scope=ITER_SCOPE, name="R-PANIC"), round3.run_iterfold],
-     "Also R-ITERFOLD: no iterator is created, pulled or reduced at fold time. Decides, on the code that implements the iterator operators (13 SimpleSL fragments embedded in the Rust sources, parsed "
+     [iterops.run_src, iterops.run_loop, iterops.run_pick, forshape.run, partial(panic.run, scope=ITER_SCOPE, name="R-PANIC"), round3.run_iterfold, round4.run_instrstate],
+     "R-INSTRSTATE: no interior-mutable field in parsed code (a cached fragment / iterator would be shared by all evaluations). Also R-ITERFOLD: no iterator is created, pulled or reduced at fold time. Decides, on the code that implements the iterator operators (13 SimpleSL fragments embedded in the Rust sources, parsed "
      "with the repository's grammar and analysed path by path; 3 Rust pull loops on the MIR CFG): every iteration pulls its "
      "source at most once and never after the end marker; f / p run only on delivered elements, once each, never on the end "
      "marker's payload; no element is dropped unexamined; map / filter / `? T` / `~` do nothing until their result is pulled; "
@@ -192,8 +192,8 @@ prop("C15",
      "samples are finite: one representative per kind of nested type")
 
 prop("C16",
-     [partial(witness.run, only=("W1SendSync",)), orpat.run_unsafe, lock.run, lock.run_global, parsepure.run],
-     "Decides: Code, Variable, Function, Type, Mut, Interpreter<'static> are Send + Sync (compile-pass witness with a failing twin); "
+     [partial(witness.run, only=("W1SendSync",)), orpat.run_unsafe, lock.run, lock.run_global, parsepure.run, round4.run_instrstate],
+     "Also R-INSTRSTATE. Decides: Code, Variable, Function, Type, Mut, Interpreter<'static> are Send + Sync (compile-pass witness with a failing twin); "
      "no user-written unsafe in any workspace crate (HIR scan), so data-race freedom is rustc's guarantee; every static is "
      "immutable after initialisation (R-GLOBAL); compound assignment is one write-guard region (=> N increments add N), no lock is "
      "acquired and the interpreter is not re-entered while a guard is live (=> no lock-order cycle) (R-LOCK).",
@@ -202,8 +202,8 @@ prop("C16",
 
 prop("C17",
      [partial(witness.run, only=("W2CodeStatic", "W4ExecIsolated")), parsepure.run, misc.run_direction,
-      partial(guard.run, only_variants=("WrongNumberOfArguments", "WrongArgument")), guard.run_mustcall],
-     "Decides: isolation by type (Code: 'static; Code::exec(&self) builds its own interpreter; parse takes &Interpreter); "
+      partial(guard.run, only_variants=("WrongNumberOfArguments", "WrongArgument")), guard.run_mustcall, round4.run_instrstate, lock.run_global, layer.run, round4.run_declvalues],
+     "R-DECLVALUES. Also: parsed code holds no interior-mutable state (R-INSTRSTATE), there is no global mutable state (R-GLOBAL), and the run-time scope discipline the REPL / batch equivalence relies on (R-LAYER). Decides: isolation by type (Code: 'static; Code::exec(&self) builds its own interpreter; parse takes &Interpreter); "
      "repeatability's structural half (no execution at parse time, cells only from Mut::exec); host calls re-check arity and each "
      "argument in the same direction as in-language calls and create_call goes through create_from_variables. Does NOT decide "
      "REPL = batch (a relation over histories).",
@@ -218,8 +218,8 @@ prop("C18",
      "MIR extraction of generated Function::new parameter lists vs generated closures", "")
 
 prop("C19",
-     [eqfield.run, round3.run_valuearm],
-     "Also R-VALUEARM: value arms of match consult nothing but Variable::eq. Decides: Array equality reads `elements` only; Variable equality compares Function / Mut by Arc::ptr_eq and the rest through "
+     [eqfield.run, round3.run_valuearm, round3.run_childkeep, round3.run_meetuse],
+     "Also: value arms / candidates are never dropped (R-CHILDKEEP), nor pruned by the non-exact meet (R-MEETUSE). Also R-VALUEARM: value arms of match consult nothing but Variable::eq. Decides: Array equality reads `elements` only; Variable equality compares Function / Mut by Arc::ptr_eq and the rest through "
      "the payload's PartialEq; `ne` is not overridden; ==, != and match value arms call exactly that PartialEq. Symmetry / "
      "reflexivity as laws are not decided.",
      "field-projection and callee inspection of the PartialEq impls", "")
